@@ -200,8 +200,13 @@ Definition adaptiveUpdate (s : st) : st * res unit :=
   let emax := qmax (pend s) in
   let s0 := set_adapt s (adaptive s) 0 [] in
   if hasT s then extend s0 emin emax (cfg_n0 s / 5)%nat (cfg_n0 s / 5)%nat
-  else if Qeq_bool emin emax then (s0, Ok tt)       (* a single distinct point: wait *)
-  else extend s0 emin emax (cfg_n0 s / 2)%nat (cfg_n0 s / 2)%nat.
+  else
+    (* a single distinct point, or points only a rounding error apart (relative to their
+       magnitude), cannot seed a table: wait *)
+    let scale := if Qle_bool (Qabs emin) (Qabs emax) then Qabs emax else Qabs emin in
+    if Qle_bool (emax - emin) ((1 # 100000000) * scale * qZ (2 * (cfg_n0 s / 2)))
+    then (s0, Ok tt)
+    else extend s0 emin emax (cfg_n0 s / 2)%nat (cfg_n0 s / 2)%nat.
 
 Definition schedule (s : st) (pts : list Q) : st * res unit :=
   match usort (filter fin pts) with
